@@ -43,6 +43,14 @@ MUTATORS = ("remove", "retain", "retain_mut", "clear", "pop", "truncate", "drain
 
 def check(ctx):
     prog = ctx.prog
+    W1 = ctx.rule("W1", "wire shape of the account requests (RFC 8555 7.3, 7.3.2, 7.3.5, 7.3.6) and of the account file: member names as written by the derived Serialize impls, none conditional except externalAccountBinding")
+    from .wire_shape import check_shapes
+    from .wire_shape import check_read_shapes
+    check_read_shapes(ctx, W1, ["acmed::acme_proto::structs::account::AccountResponse", "acmed::account::storage::AccountStorage", "acmed::account::storage::AccountEndpointStorage",
+                                "acmed::account::storage::AccountKeyStorage", "acmed::account::storage::ExternalAccountStorage"])
+    check_shapes(ctx, W1, ["acmed::acme_proto::structs::account::Account", "acmed::acme_proto::structs::account::AccountUpdate", "acmed::acme_proto::structs::account::AccountKeyRollover",
+                           "acmed::acme_proto::structs::account::AccountDeactivation", "acmed::account::storage::AccountStorage", "acmed::account::storage::AccountEndpointStorage",
+                           "acmed::account::storage::AccountKeyStorage", "acmed::account::storage::ExternalAccountStorage"])
     R1 = ctx.rule("R1", "register_account only when no URL is stored, the external binding changed, or the CA reported accountDoesNotExist")
     callers = effective_callers(prog, REG)
     allowed = {SYNC, ACC + "::register", UPC, UPK}
@@ -178,12 +186,16 @@ def check(ctx):
     load_errors(ctx)
 
 
-def must_follow(ctx):
+def bookkeeping_rule(ctx, R4, keys):
+    """a request that succeeded leaves behind everything `synchronize` later compares with: otherwise the next synchronize sees a
+    difference that is not there and registers / updates again (shared with C12: no second registration)"""
     prog = ctx.prog
-    R4 = ctx.rule("R4", "success paths refresh the matching fingerprints and save; key change at load keeps the old key; past_keys is append-only")
     table = {REG: ["set_account_url", "set_orders_url", "update_key_hash", "update_contacts_hash", "update_external_account_hash"],
              UPC: ["update_contacts_hash"], UPK: ["update_key_hash"]}
     for key, needs in table.items():
+        if key not in keys:
+            continue
+
         b = prog.async_body(key)
         okb, errb, fwd = result_return_kinds(b)
         ok_own = [i for i in okb]
@@ -201,6 +213,12 @@ def must_follow(ctx):
             cs = b.calls_to(ACC + "::" + n)
             good, hit = unreachable_without(b, [c.bb for c in cs], removed_nodes=posts)
             ctx.require(R4, good and posts, cs[0].where() if cs else "-", "%s: %s happens after the request was answered" % (key.rsplit("::", 1)[1], n), [key, "bookkeeping-before-request", n])
+
+
+def must_follow(ctx):
+    prog = ctx.prog
+    R4 = ctx.rule("R4", "success paths refresh the matching fingerprints and save; key change at load keeps the old key; past_keys is append-only")
+    bookkeeping_rule(ctx, R4, (REG, UPC, UPK))
     # hash updaters write the like-named field from the right source
     for fn, fld, src in (("update_key_hash", "key_hash", "hash_key"), ("update_contacts_hash", "contacts_hash", "hash_contacts"), ("update_external_account_hash", "external_account_hash", "hash_external_account")):
         b = prog.must_body(ACC + "::" + fn)
